@@ -77,6 +77,8 @@ def make_hw():
         def __init__(self):
             super().__init__()
             self.batches: list[list[Any]] = []
+            self.flags: list[tuple[bool, bool]] = []     # (started, paused) of the engine at each write_batch
+            self.engine = None
             self.last: list[Any] = [0] * len(REGS)
             self.fail_read = False
 
@@ -95,6 +97,8 @@ def make_hw():
             by = {r.name: v for v, r in zip(values, registers)}
             row = [by[n] for n in REGS]
             self.batches.append(row)
+            e = self.engine
+            self.flags.append((bool(e._runstate_started), bool(e._runstate_paused)) if e is not None else (False, False))
             self.last = row
 
         def connect(self):
@@ -156,6 +160,7 @@ class Sim:
         uod.hwl.connect()
         e = m["Engine"](uod, m["EngineTiming"](m["WallClock"](), m["NullTimer"](), 0.1, 1.0))
         self.e = e
+        self.hw.engine = e
         self.t = EPOCH
         self.items: list[str] = []          # interpreter items of the running tick
         self.interp_called = False
@@ -276,6 +281,19 @@ class Sim:
                 f"ctl={b(ctl.is_running)}{b(ctl.is_holding)}{b(ctl.is_paused)} "
                 f"rid={'-' if rid is None else self.run_ids.get(rid, '?' + str(rid))} "
                 f"ms={b(tg['Method Status'].get_value() == 'Error')} interp={b(self.last_interp)}")
+        if mode == "c08":
+            prev = e._prev_state
+            ps = "none" if prev is None else ",".join(str(prev.get(n).value) if prev.has(n) else "_" for n in REGS)
+            wl = "|".join(",".join(str(v) for v in row) for row in self.hw.batches[nw0:]) or "-"
+            ui = sorted((n for n in e.uod.command_instances.keys() if n in UCMDS), key=UCMDS.index)
+            ux = [r.name + (".u" if r.source == "user" else ".m") for r in e._command_manager.cmd_executing
+                  if r.name in UCMDS]
+            return (f"st={tg['System State'].get_value()} f={b(e._runstate_started)}{b(e._runstate_paused)}"
+                    f"{b(e._runstate_holding)}{b(e._runstate_stopping)} "
+                    f"rid={'-' if rid is None else self.run_ids.get(rid, '?' + str(rid))} "
+                    f"ms={b(tg['Method Status'].get_value() == 'Error')} interp={b(self.last_interp)} "
+                    f"out={','.join(str(e.uod.tags[n].get_value()) for n in REGS)} prev={ps} wl={wl} "
+                    f"uinst={','.join(ui) or '-'} uex={','.join(ux) or '-'}")
         if mode in ("c06", "all"):
             inst = sorted(e.registry._command_instances.keys())
             ex = [r.name + (".u" if r.source == "user" else ".m") + classify_arg(r.name, r.arguments)
@@ -317,6 +335,7 @@ class Sim:
             "outs": [e.uod.tags[n].get_value() for n in REGS],
             "n_batches": len(self.hw.batches),
             "has_error": e.has_error_state(),
+            "uex": [(r.name, r.source == "user") for r in e._command_manager.cmd_executing if r.name in UCMDS],
         }
 
     # -- ops ---------------------------------------------------------------------------
@@ -365,6 +384,7 @@ class Sim:
         else:
             raise ValueError(f"unknown op {op!r}")
         rec["res"] = res
+        rec["writes"] = [(list(v), f[0], f[1]) for v, f in zip(self.hw.batches[nw0:], self.hw.flags[nw0:])]
         rec.update(self.raw())
         return line, res + " " + self.obs(mode, nw0), rec
 
@@ -375,19 +395,30 @@ class Sim:
             pass
 
 
-def cfg_line(guard: bool, clocks: bool, prev: bool, mode: str) -> str:
+FLAGS = ("guard", "clocks", "prev", "start", "gate", "err")
+
+
+def cfg_line(cfg: dict, mode: str) -> str:
+    """First line of a case. `cfg`: which repairs the model variant contains (keys FLAGS; missing = False).
+    mode c08 addresses Driver/RunStateOut, the other modes Driver/RunState."""
     b = lambda x: "1" if x else "0"  # noqa: E731
     safes = ",".join("_" if s is None else str(s) for s in SAFES)
-    return f"cfg\t{b(guard)}\t{b(clocks)}\t{b(prev)}\t{mode}\t{safes}\t{','.join(str(v) for v in INIT)}"
+    fl = "\t".join(b(cfg.get(k)) for k in FLAGS)
+    init = ",".join(str(v) for v in INIT)
+    if mode == "c08":
+        return f"cfg\t{fl}\t{safes}\t{init}"
+    return f"cfg\t{fl}\t{mode}\t{safes}\t{init}"
 
 
-def execute(case: dict, mode: str, cfg: tuple[bool, bool, bool]) -> tuple[list[str], list[str], list[dict]]:
+def execute(case: dict, mode: str, cfg: dict) -> tuple[list[str], list[str], list[dict]]:
     """Run a case on the real engine: (model op lines, canonical answer lines, raw records)."""
     sim = Sim(case.get("method", ""))
     try:
-        lines = [cfg_line(*cfg, mode)]
+        lines = [cfg_line(cfg, mode)]
         outs = ["init " + sim.obs(mode, 0)]
-        recs: list[dict] = [dict(op=["init"], res="init", **sim.raw())]
+        recs: list[dict] = [dict(op=["init"], res="init",
+                                 writes=[(list(v), f[0], f[1]) for v, f in zip(sim.hw.batches, sim.hw.flags)],
+                                 **sim.raw())]
         for op in case["ops"]:
             ln, out, rec = sim.do(op, mode)
             lines.append(ln)
@@ -401,7 +432,7 @@ def execute(case: dict, mode: str, cfg: tuple[bool, bool, bool]) -> tuple[list[s
 class Runner:
     """Caches executions so that `lines(case)` and `impl(case)` of ctx.correspond share one engine run."""
 
-    def __init__(self, mode: str, cfg: tuple[bool, bool, bool]):
+    def __init__(self, mode: str, cfg: dict):
         self.mode, self.cfg = mode, cfg
         self.cache: dict[int, tuple[list[str], list[str], list[dict]]] = {}
 
@@ -429,12 +460,12 @@ def probe() -> dict[str, bool]:
     # guard: Stop, then Pause + Stop inside the two-tick stop window
     _, _, r = execute({"method": "Mark: a", "ops": [["user", "Start"], ["tick", 8, 8, 0], ["tick", 8, 8, 0],
                                                      ["user", "Stop"], ["tick", 8, 8, 0], ["user", "Pause"],
-                                                     ["user", "Stop"], ["tick", 8, 8, 0]]}, "c06", (0, 0, 0))
+                                                     ["user", "Stop"], ["tick", 8, 8, 0]]}, "c06", {})
     guard = r[-1]["state"] == "Stopped"
     # clocks: Block Time during Hold
     _, _, r = execute({"method": "Mark: a", "ops": [["user", "Start"], ["tick", 8, 8, 0], ["tick", 8, 8, 0],
                                                      ["tick", 8, 8, 0], ["user", "Hold"], ["tick", 8, 8, 0],
-                                                     ["tick", 8, 8, 0], ["tick", 8, 8, 0]]}, "c07", (0, 0, 0))
+                                                     ["tick", 8, 8, 0], ["tick", 8, 8, 0]]}, "c07", {})
     clocks = r[-1]["bt"] == r[-2]["bt"]
     # prev: _prev_state after Pause, Stop
     sim = Sim("Mark: a")
@@ -445,7 +476,17 @@ def probe() -> dict[str, bool]:
         prev = sim.e._prev_state is None
     finally:
         sim.close()
-    return {"guard": guard, "clocks": clocks, "prev": prev}
+    # start: does engine.run() write the safe process image; gate: does an interpreter-sourced UOD command keep
+    # writing while paused; err: does an error pause apply the safe state
+    _, _, r = execute({"method": "L0: 55,9", "ops": [["user", "Start"], ["tick", 8, 8, 0], ["tick", 8, 8, 0],
+                                                      ["tick", 8, 8, 0], ["tick", 8, 8, 0], ["user", "Pause"],
+                                                      ["tick", 8, 8, 0], ["tick", 8, 8, 0]]}, "c08", {})
+    start = len(r[0]["writes"]) > 0
+    gate = r[-1]["writes"][-1][0][0] == SAFES[0]
+    _, _, r = execute({"method": "Mark: a", "ops": [["user", "Start"], ["tick", 8, 8, 0], ["user", "W0"],
+                                                     ["tick", 8, 8, 0], ["errapi"], ["tick", 8, 8, 0]]}, "c08", {})
+    err = r[-1]["writes"][-1][0][0] == SAFES[0]
+    return {"guard": guard, "clocks": clocks, "prev": prev, "start": start, "gate": gate, "err": err}
 
 
 # ---------------------------------------------------------------------------------------
